@@ -350,9 +350,24 @@ def task_targets():
     return [Target('linear_task', [lt], H), Target('bias_task', [bt], H), Target('grads_task', [gt], H), Target('scale_task', [st], H)]
 
 
+def select_targets():
+    """(d) select_iterator_t::loop (feature-wise iteration), all 12 overloads + features_per_thread: the functional contracts of
+    specs/C18/functional.py (one definition of the clause for both properties): a chunk task [begin, end) invokes the operator exactly
+    end - begin times, invocation k for the feature AT POSITION begin + k of the given list, with this task's tnum and the values
+    dataset().select(samples, THAT feature, m_buffers[tnum].m_<kind>); loop(samples, features, op) maps once over [0, features.size())
+    in chunks >= 1; loop(samples, feature, op) is one invocation with tnum 0; loop(samples, op) walks the list of the operator's kind"""
+    import os
+    import sys
+    d = os.path.join(os.path.dirname(os.path.abspath(__file__)), '..', 'C18')
+    if d not in sys.path:
+        sys.path.append(d)
+    import functional
+    return functional.select_targets()
+
+
 def build(tier):
     import ctor_spec
-    targets = reduce_targets() + acc_targets() + iter_targets() + access_targets() + vgrad_targets() + task_targets() + ctor_spec.targets()
+    targets = reduce_targets() + acc_targets() + iter_targets() + access_targets() + vgrad_targets() + task_targets() + ctor_spec.targets() + select_targets()
     import reg_smt
     bounded, fns = [], []
     for n in (1, 2, 3):
